@@ -343,7 +343,7 @@ def frame_histograms(view, case, box, pos):
     hists, margin, offenders = {}, 1e9, set()
     for it in case["interactions"]:
         mn, mx, st = float(it["min"]), float(it["max"]), float(it["step"])
-        if it["class"] == "pair" and case["include_intra"]:
+        if it["class"] != "bonded" and case["include_intra"]:
             mx = float(it["max_intra"])
         nb = nbins_of(mn, mx, st)
         h = np.zeros(nb)
@@ -455,7 +455,7 @@ def shell_volumes(x, step):
 
 def grid_of(case, it):
     mn, mx, st = float(it["min"]), float(it["max"]), float(it["step"])
-    if it["class"] == "pair" and case["include_intra"]:
+    if it["class"] != "bonded" and case["include_intra"]:
         mx = float(it["max_intra"])
     nb = nbins_of(mn, mx, st)
     return mn + st * np.arange(nb), st
@@ -723,11 +723,15 @@ class Gen:
             k = int(math.ceil(3.1416 / st)) if r.rand() < 0.8 else \
                 int(r.randint(2, 20))
             cut = round(min(half * 0.95, r.uniform(0.3, 0.9)), 3)
-            inter.append({"class": "threebody", "name": "%s-%s-%s" % (t1, t2, t3),
-                          "type1": t1, "type2": t2, "type3": t3,
-                          "cut": dec(cut, 6), "min": "0.0",
-                          "max": dec(round(k * st, 6), 6), "step": dec(st, 6),
-                          "group": "none"})
+            tb = {"class": "threebody", "name": "%s-%s-%s" % (t1, t2, t3),
+                  "type1": t1, "type2": t2, "type3": t3,
+                  "cut": dec(cut, 6), "min": "0.0",
+                  "max": dec(round(k * st, 6), 6), "step": dec(st, 6),
+                  "group": "none"}
+            if case["include_intra"]:
+                k2 = k if r.rand() < 0.5 else int(r.randint(2, k + 3))
+                tb["max_intra"] = dec(round(k2 * st, 6), 6)
+            inter.append(tb)
         if not inter:
             return None
         # file order: csg_stat keeps non-bonded and bonded lists separately
